@@ -8,11 +8,21 @@ T_NOTE = ("Trusted base: the facade (rxverif-rt) models std's Mutex/RwLock(write
           "bounded to the listed closed scenarios and preemption/deviation bound.")
 S_NOTE = ("Trusted base: the reference interpreter / monitors in /verif/harness (spec: DESIGN.md Appendix A and §6); "
           "bounded to the enumerated pipelines, scripts and histories; single-threaded.")
+S_TECH = "exhaustive enumeration of operator pipelines x source scripts x driver histories, each run on fresh real objects and compared step by step with a reference interpreter / safety monitor (bounded model checking of the implementation by re-execution)"
+T_TECH = "stateless preemption-bounded DFS over all schedules of the real code under a controlled scheduler (CHESS-style iterative context bounding), virtual time"
 CHECKS = {
- # id: (engine, technique, level text, design_ref, note)
- "C08": ("T", "stateless preemption-bounded DFS over all schedules of the real scheduler code under a controlled runtime (CHESS-style)",
-         "Every schedule with <= c preemptions (c=2..3 quick, 3..5 thorough) of 10-13 closed post/abort histories over 1..3 poster threads and the worker runs the real AsyncFunctionQueue/NewThreadScheduler to completion; oracle: tasks disjoint, at most once, FIFO w.r.t. real-time order of post calls, one worker thread, no lost wake-up, nothing dequeued after abort returned, worker exits after abort.",
-         "§4, §7 C08", T_NOTE),
+ "C01": ("S", S_TECH, "Every catalogue operator (68 instances + window/group_by direct) at depth 0/1/2 (thorough: 3) and every combining operator over 2-3 sources is run on every ill-formed source script over {n1,n2,E,C} up to length 4 (thorough 5) - not cut at the first terminal - cold and hot (all interleavings); oracle: contract automaton next*(error|complete)? on every recorder (outer and inner) and Subscription::is_subscribed()==false after a terminal.", "§5, §7 C01", S_NOTE),
+ "C02": ("S", S_TECH, "Every single-source operator instance at depth 1 and every ordered pair at depth 2 (thorough: depth 3 over a reduced catalogue, scripts up to 8 items over {1,2}) x all item strings over {1,2,3} up to length 4/5 x {complete,error,silent}, cold and hot (stepwise, so late/early emission is a mismatch); oracle: reference interpreter (Appendix A).", "§5, §7 C02", S_NOTE),
+ "C03": ("S", S_TECH, "merge/concat/zip/combine_latest/amb/take_until/skip_until/sample/sequence_equal/flat_map over 2-3 sources: all per-source scripts (<=2-3 items + complete/error/silent) x ALL sequential interleavings (hot, compared stepwise) + cold and mixed sources + one single-source operator below/above; oracle: reference interpreter.", "§5, §7 C03", S_NOTE),
+ "C04": ("S", S_TECH, "Error injected at every position of every script through every operator (depth<=2) and every combining operator; retry(0..4)/retry_when/on_error_resume_next/materialize/dematerialize over sources whose k-th subscription behaves differently (5^4 attempt sequences); oracle: reference interpreter + the delivered error must be the very same payload object.", "§5, §7 C04", S_NOTE),
+ "C05": ("S", S_TECH, "Every pipeline (depth<=2, combining operators) over hot sources with unsubscribe at every position of every history (also twice, also after the terminal); oracle: nothing delivered in or after the step in which unsubscribe returned, second unsubscribe is a no-op, is_subscribed truth table. (Cross-thread clause: engine T scenarios, see DESIGN §7 C05.)", "§5, §7 C05", S_NOTE),
+ "C06": ("S", S_TECH, "Every pipeline over probe sources (observer.is_subscribed() read after every step; polite/endless producers counted) for every terminating cause (unsubscribe at every position, terminal, take/first/element_at/take_while/contains/all/take_until/amb/retry/erroring sibling); oracle: a source the reference no longer needs reads is_subscribed()==false and makes no further emission.", "§5, §7 C06", S_NOTE),
+ "C08": ("T", T_TECH, "Every schedule with <= c preemptions (c=2..3 quick, 3..5 thorough) of 10-13 closed post/abort histories over 1..3 poster threads and the worker runs the real AsyncFunctionQueue/NewThreadScheduler to completion; oracle: tasks disjoint, at most once, FIFO w.r.t. real-time order of post calls, one worker thread, no lost wake-up, nothing dequeued after abort returned, worker exits after abort.", "§4, §7 C08", T_NOTE),
+ "C12": ("T", T_TECH, "Subject/BehaviorSubject/ReplaySubject with 1-2 producer threads, a subscribing thread and an unsubscribing thread, two observer iteration orders (hash seeds); every schedule with <= 2 (thorough 3-4) preemptions; oracle: resident observers get every item once in per-producer order, leaving/late observers a gap-free prefix/suffix, late Replay/Behavior subscribers the full history once.", "§4, §7 C12", T_NOTE),
+ "C14": ("S", S_TECH, "Every pipeline (depth<=2, under retry, combining operators) subscribed 2-3 times to the SAME Observable value: sequentially over cold sources whose k-th subscription differs, and mid-stream on a hot source (also after the first left); oracle: each subscriber equals the reference for an independent pipeline instance; tap side effects per subscription.", "§5, §7 C14", S_NOTE),
+ "C17": ("S", S_TECH, "Every pipeline (depth<=2, combining operators) x every way of ending (terminal, unsubscribe at every position); an Arc token is captured by the 3 subscriber callbacks, by every closure handed to an operator and carried by every item; oracle: after the end and after dropping all handles every token has exactly one owner.", "§5, §7 C17", S_NOTE),
+ "C18": ("T", T_TECH, "A source thread emitting <=2 items then complete/error against a minimal block_on (facade Mutex/Condvar + std::task::Wake) polling to_vec(); every schedule with <= 3 (thorough 4-6) preemptions; oracle: result equals the script, Ready never before the source's terminal, main never parked forever (lost wake-up).", "§4, §7 C18", T_NOTE),
+ "C19": ("T", T_TECH, "2-3 threads of which one signals a terminal: inputs of merge/flat_map/zip/amb/combine_latest, source vs trigger of take_until/skip_until/sample, next||complete||error on the four subject types, each observed directly and through map; every schedule with <= 2 (thorough 3) preemptions; oracle: at most one terminal, no callback caused by a library call that started after the terminal callback returned.", "§4, §7 C19", T_NOTE),
 }
 PENDING = {}
 props = [json.loads(l) for l in open(os.path.join(V, "properties.jsonl"))]
